@@ -683,11 +683,12 @@ def evaluate_posdef_kinetic_energy_density(
             transform=transform,
             deriv_type=deriv_type,
         )
+    output *= 0.5
     # Fix #117: check magnitude of small negative density values, then use clip to remove them
     min_output = np.min(output)
     if min_output < 0.0 and abs(min_output) > threshold:
         raise ValueError(f"Found negative density <= {-threshold}, got {min_output}.")
-    return (0.5 * output).clip(min=0.0)
+    return output.clip(min=0.0)
 
 
 # TODO: test against a reference
